@@ -218,12 +218,12 @@ func (t *stdioClientTransport) sendRequest(ctx context.Context, req *JSONRPCRequ
 	t.pendingRequests[reqID] = respChan
 	t.pendingMutex.Unlock()
 
-	// Clean up on exit.
+	// Clean up on exit. The channel is not closed: the reader may have looked it up
+	// just before and a send on a closed channel panics.
 	defer func() {
 		t.pendingMutex.Lock()
 		delete(t.pendingRequests, reqID)
 		t.pendingMutex.Unlock()
-		close(respChan)
 	}()
 
 	// Send request.
